@@ -600,6 +600,25 @@ def check_concurrent_sends(ck):
         for end in ("commit", "abort"):
             scs.append(c07.gen_batch_api_scenario(rng, sid, ca, end))
             sid += 1
+    # a fatal reply to a transactional request (INVALID_PRODUCER_EPOCH / TRANSACTIONAL_ID_AUTHORIZATION_FAILED at
+    # AddPartitionsToTxn of a second partition) while a batch of the first partition sits in the Produce handler's retry
+    # back-off: "after a fatal error every pending send fails" - also the one that is neither queued nor on the wire
+    for backoff in (300, 600):
+        for code in (47, 53):
+            for dt in (0.03, 0.08, 0.15):
+                for pcode in (7, 5):
+                    first = {"tasks": [[{"p": 0, "sleep": 0, "n": 1}], [{"p": 1, "sleep": dt, "n": 1}]],
+                             "offsets": None, "await_sends": False, "end": "commit", "pause": 0, "end_after": 1.2}
+                    sc = {"id": sid, "seed": sid, "brokers": 1, "partitions": 2, "marker_delay": 0.0, "linger_ms": 0,
+                          "max_batch_size": 16384, "request_timeout_ms": 2000, "retry_backoff_ms": backoff,
+                          "txn_coord": 0, "group_coord": 0, "instances": [{"start_at": 0.0, "txns": [first]}],
+                          "faults": {"Produce:1": c07.mk_fault("error", pcode),
+                                     "AddPartitionsToTxn:2": c07.mk_fault("error", code)},
+                          "moves": {}, "loading": {}, "kills": [], "quiet": 8.0, "run_within": 60.0,
+                          "family": "fatal-during-produce-backoff"}
+                    c07.number_offsets(sc)
+                    scs.append(sc)
+                    sid += 1
     results = c07.run_scenarios(scs, timeout=900)
     nbad = {}
     ran = 0
@@ -616,6 +635,16 @@ def check_concurrent_sends(ck):
         if not r.get("ok"):
             continue
         ran += 1
+        if sc.get("family") == "fatal-during-produce-backoff":
+            stuck = [sd["rid"] for sd in r["sends"] if sd.get("state") == "pending"]
+            fatal = any(i.get("state") == "FATAL_ERROR" for i in r.get("instances", []))
+            if stuck or r.get("unfinished"):
+                viol("send-unresolved-after-fatal-error",
+                     f"send futures of records {stuck} are still unresolved {sc['quiet']} s after the producer "
+                     f"{'entered FATAL_ERROR' if fatal else 'met the fatal reply'} (unfinished application tasks: "
+                     f"{r.get('unfinished')})", sc, r)
+            ck.count(key=("fatal-backoff", sc["id"]), nontrivial=fatal)
+            continue
         out_of_state = [(e["rid"], e["txn_state"]) for e in r["trace"]
                         if e["ev"] == "c_accept" and e.get("txn_state") not in (None, "IN_TRANSACTION")]
         if out_of_state:
